@@ -902,8 +902,23 @@ def prove_owner(src_root, ex: Explorer):
             ob.name = 'C08.owner.' + ob.name[4:]
 
 
+def prove_abort_stops_upload(src_root, ex: Explorer):
+    """A block or a share-mode change takes effect on an upload through abort() (C08.changes.* / C08.evaluate.*).  That an aborted upload
+    then sends NOTHING more rests on the task-slot contracts of C06, discharged here as well: (a) the selection never starts a second
+    negotiation for a transfer that still holds a task - finished or not - so a task handle is never overwritten or cleared while its task
+    runs (C06.slot-free#*); (b) abort() of every state cancels and awaits both task slots before the change is reported (C06.cancel-all.*);
+    (c) the done-callbacks clear exactly the slot their task filled (C06.manage_transfers.*)."""
+    from contracts import C06
+    C06.prove_slot_selection(src_root, ex)
+    C06.prove_cancel_all(src_root, ex)
+    C06.prove_manage_assigns(src_root, ex)
+    for ob in ex.obligations:
+        if ob.name.startswith('C06.'):
+            ob.name = 'C08.abort-stops-upload.' + ob.name[4:]
+
+
 PARTS = {'owner': prove_owner, 'locked': prove_locked, 'query': prove_query, 'replies': prove_replies, 'search': prove_search_gate, 'uploads': prove_upload_gate,
-         'evaluate': prove_evaluate, 'changes': prove_changes, 'requeue': prove_requeue_clears_reason}
+         'evaluate': prove_evaluate, 'changes': prove_changes, 'requeue': prove_requeue_clears_reason, 'abort-stops': prove_abort_stops_upload}
 
 
 def items(src_root, tier):
